@@ -260,7 +260,8 @@ EpViol(gg, p, r, eps, i) ==
        IN When(e[2] > bound, V("C18", r.n, "pending-output-unbounded", <<p, q, e[2], bound>>))
           \o When(e[3] > 2 * gg.W + 2, V("C18", r.n, "recv-inputs-unbounded", <<p, q, e[3]>>))
           \o When(e[4] > MaxChecksumHistory + 1, V("C18", r.n, "pending-checksums-unbounded", <<p, q, e[4]>>))
-          \o When(e[5] # 0, V("C18", r.n, "send-queue-not-flushed", <<p, q, e[5]>>))
+          \o When(r.a \in {"tick", "poll"} /\ e[5] # 0,      \* poll_remote_clients hands everything to the socket
+                  V("C18", r.n, "send-queue-not-flushed", <<p, q, e[5]>>))
           \o EpViol(gg, p, r, eps, i + 1)
 
 BufViol(gg, p, r) ==
